@@ -45,8 +45,12 @@ def bounded(name, properties, bound):
 
 
 def contract(cls):
+    """register a contract; several contracts may share one target function (different `key`)"""
     inst = cls()
-    REGISTRY[cls.target] = inst
+    key = cls.__dict__.get('key') or cls.target
+    inst.key = key
+    assert key not in REGISTRY, key
+    REGISTRY[key] = inst
     return cls
 
 
@@ -130,6 +134,8 @@ class Contract:
     def callee(self, h, cfg):
         """the thing to call: defaults to the raw function of target"""
         return raw_function(self.target)
+
+    key = None
 
     def samples(self, cfg):
         """extra concrete inputs (dict name->value) for the run-time contract check (bounded stand-in)"""
